@@ -29,8 +29,8 @@ package unused
 //@    Split(File(node.FilePath), "\n")[method.Position.StartLine - 1][method.Position.StopLinePosition:]
 //@ loop 1 invariant forall k int :: {lines[k]} 0 <= k && k < len(lines) ==> !Contains(lines[k], "\n")
 // proof steps: splitting the joined text gives the lines back
-//@ assert before WriteFile#1 len(lines) >= 1 && len(Split(output, "\n")) == len(lines)
-//@ assert before WriteFile#1 forall k int :: {Split(output, "\n")[k]} 0 <= k && k < len(lines) ==> Split(output, "\n")[k] == lines[k]
+//@ assert before WriteFile#1 len(lines) >= 1 && len(Split(Join(lines, "\n"), "\n")) == len(lines)
+//@ assert before WriteFile#1 forall k int :: {Split(Join(lines, "\n"), "\n")[k]} 0 <= k && k < len(lines) ==> Split(Join(lines, "\n"), "\n")[k] == lines[k]
 //@ loop 1 assert !Contains(line, "\n")
 //@ loop 1 assert !Contains(line[:method.Position.StartLinePosition] + (*info).Method + line[method.Position.StopLinePosition:], "\n")
 
